@@ -84,14 +84,14 @@ def run_c13(tier, seed):
     try:
         binp = build_harness(wd)
         states, trans, runs, quirks = mc_file(wd, "C13", tier)
-        rounds = {"quick": 8, "thorough": 800}[tier]
+        rounds = {"quick": 32, "thorough": 800}[tier]
         nparts = 4 if tier == "quick" else NCPU // 2
         accepted = total = 0
         samples = []
 
         def part(i):
             tf = os.path.join(wd, "file%d.ndjson" % i)
-            p = subprocess.run([binp, "drive-file", str(seed * 100 + i), str(max(2, rounds // nparts)), tf],
+            p = subprocess.run([binp, "drive-file", str(seed * 100 + i), str(max(8, rounds // nparts)), tf],
                                stdout=subprocess.PIPE, stderr=subprocess.STDOUT, text=True, timeout=3000)
             if p.returncode != 0:
                 raise Broken("drive-file failed: " + p.stdout[-1500:])
